@@ -809,11 +809,32 @@ fn c12_states(rep: &mut Report) {
     // quaternion normalisation
     // (the band around sqrt(f64::MAX) = 1.34e154: one square fits, the sum of four does not)
     let comps = [0.0, 1e-200, 1e-10, 4e-10, 6e-10, 1e-9, 2e-9, 1e-5, 1.0, -1.0, 3.0, 1e100, 0.7e154, 1e154, -1.3e154, 1.4e154, 1e160, -1e200];
+    let mut quats: Vec<[f64; 4]> = Vec::new();
     for &x in &comps {
         for &y in &comps {
             for &(z, w) in &[(0.0, 0.0), (0.0, 1.0), (0.0, -2.0), (0.0, 1e-10), (0.0, 1e160), (1e154, 1e154), (-0.7e154, 0.7e154), (1.3e154, 0.0)] {
+                quats.push([x, y, z, w]);
+            }
+        }
+    }
+    // scale sweep: five directions at EVERY binary order of magnitude a double has (2^-1074 .. 2^1023) -
+    // wherever the squares underflow, become subnormal, or overflow, the answer is still a unit quaternion
+    // parallel to the input, or ZeroMagnitude for a magnitude that is really negligible
+    for e in -1074i32..=1023 {
+        let sc = 2f64.powi(e);
+        for d in [[1.0, 0.0, 0.0, 0.0], [0.0, 3.0, 0.0, 0.0], [1.0, -2.0, 3.0, -4.0], [1.0, 1.0, 1.0, 1.0], [1.0, 1e-3, 0.0, -0.5]] {
+            let q = [d[0] * sc, d[1] * sc, d[2] * sc, d[3] * sc];
+            if q.iter().all(|c| c.is_finite()) {
+                quats.push(q);
+                rep.count("normalise_scale_sweep", 1);
+            }
+        }
+    }
+    {
+        {
+            for q in quats {
                 rep.count("evaluations", 1);
-                let q = [x, y, z, w];
+                let [x, y, z, w] = q;
                 let r = guarded(|| SO3State::new(x, y, z, w).normalise());
                 let det = json!({"input_xyzw": q});
                 let true_norm = {
@@ -838,7 +859,10 @@ fn c12_states(rep: &mut Report) {
                             viol(rep, "C12", &format!("SO3State|normalise|not-unit|{class}"), format!("result has norm {n}"), det.clone());
                         } else {
                             // parallel: same direction as the input
-                            let dot: f64 = (0..4).map(|i| uq[i] * (q[i] / true_norm)).sum();
+                            // (direction computed from the components scaled by the largest: the true norm itself may overflow)
+                            let m = q.iter().fold(0.0f64, |m, c| m.max(c.abs()));
+                            let rel: f64 = q.iter().map(|c| (c / m).powi(2)).sum::<f64>().sqrt();
+                            let dot: f64 = (0..4).map(|i| uq[i] * ((q[i] / m) / rel)).sum();
                             if !((dot - 1.0).abs() <= 1e-9) {
                                 viol(rep, "C12", &format!("SO3State|normalise|not-parallel|{class}"), format!("result is not parallel to the input (cos = {dot})"), det);
                             }
